@@ -3226,7 +3226,7 @@ def reset(
 
             # Pass committer explicitly: Repo._write_reflog would otherwise
             # resolve it via get_user_identity(), which reads os.environ.
-            r.refs.set_if_equals(
+            if not r.refs.set_if_equals(
                 HEADREF,
                 old_head,
                 target_commit.id,
@@ -3234,7 +3234,8 @@ def reset(
                     _config_stack(r, env=env), kind="COMMITTER", env=env
                 ),
                 message=reflog_message,
-            )
+            ):
+                raise Error("HEAD changed during reset")
 
         if mode == "soft":
             # Soft reset: only update HEAD, leave index and working tree unchanged
@@ -6819,7 +6820,10 @@ def update_ref(
                     raise ValueError(
                         f"Ref {ref_name.decode('utf-8')} does not match expected value"
                     )
-            r.refs.remove_if_equals(ref_name, old_sha, message=message_bytes)
+            if not r.refs.remove_if_equals(ref_name, old_sha, message=message_bytes):
+                raise ValueError(
+                    f"Ref {ref_name.decode('utf-8')} does not match expected value"
+                )
         else:
             # Update or create ref
             if not r.refs.set_if_equals(
